@@ -1584,3 +1584,203 @@ func ruleStringPayloadNonNil(c *Ctx) {
 		c.S.Undecided("R-string-payload-nonnil", "sites", "-", "no byte slice is stored as a payload")
 	}
 }
+
+// ---------------------------------------------------------------- R-sort-keys-defined
+
+const textSortKeys = "R-sort-keys-defined: the fields a comparison function reads from the elements it orders (the closure given to sort.Slice) are written on every path that leads from the creation of the elements to the sort — in a composite literal, an assignment, or a loop over the same slice. A key field that is only filled on one branch (under BY) compares zero values on the other: SORT without BY returned the list in insertion order"
+
+func ruleSortKeysDefined(c *Ctx) {
+	c.S.Rule("R-sort-keys-defined", textSortKeys, 1)
+	n := 0
+	for _, fn := range c.SrcFuncs() {
+		k := 0
+		for _, in := range instrsOf(fn) {
+			call, ok := in.(*ssa.Call)
+			if !ok {
+				continue
+			}
+			g := call.Call.StaticCallee()
+			if g == nil || (g.String() != "sort.Slice" && g.String() != "sort.SliceStable") || len(call.Call.Args) != 2 {
+				continue
+			}
+			mc, ok := call.Call.Args[1].(*ssa.MakeClosure)
+			if !ok {
+				continue
+			}
+			less, _ := mc.Fn.(*ssa.Function)
+			// the element type of the sorted slice
+			sl := call.Call.Args[0]
+			if mi, ok := sl.(*ssa.MakeInterface); ok {
+				sl = mi.X
+			}
+			st, ok := sl.Type().Underlying().(*types.Slice)
+			if !ok || less == nil {
+				continue
+			}
+			elemStruct, ok := st.Elem().Underlying().(*types.Struct)
+			if !ok {
+				continue
+			}
+			// fields of the element type the comparison reads
+			fields := map[*types.Var]bool{}
+			for _, in2 := range instrsOf(less) {
+				switch x := in2.(type) {
+				case *ssa.FieldAddr:
+					if types.Identical(deref(x.X.Type()), st.Elem()) {
+						fields[fieldOf(x)] = true
+					}
+				case *ssa.Field:
+					if types.Identical(x.X.Type(), st.Elem()) {
+						fields[fieldOf(x)] = true
+					}
+				}
+			}
+			_ = elemStruct
+			var fs []*types.Var
+			for f := range fields {
+				fs = append(fs, f)
+			}
+			sort.Slice(fs, func(i, j int) bool { return fs[i].Name() < fs[j].Name() })
+			for _, f := range fs {
+				k++
+				n++
+				key := fmt.Sprintf("%s:sort#%d:%s", fnName(fn), k, f.Name())
+				writes := func(in3 ssa.Instruction) bool {
+					s3, ok := in3.(*ssa.Store)
+					if !ok {
+						return false
+					}
+					fa, ok := s3.Addr.(*ssa.FieldAddr)
+					return ok && fieldOf(fa) == f
+				}
+				// forward from the entry, path by path; a block that writes the field ends the path; loops over a slice of
+				// the element type are taken to run (no element, nothing to compare); a condition that was decided earlier
+				// on the path (the same boolean value, a flag set to a constant on the way) is followed consistently
+				type state struct {
+					b   *ssa.BasicBlock
+					sig string
+				}
+				seen := map[state]bool{}
+				uncovered := false
+				steps := 0
+				var evalCond func(v ssa.Value, env map[ssa.Value]bool) (bool, bool)
+				evalCond = func(v ssa.Value, env map[ssa.Value]bool) (bool, bool) {
+					if t, ok := env[v]; ok {
+						return t, true
+					}
+					if u, ok := v.(*ssa.UnOp); ok && u.Op == token.NOT {
+						t, ok := evalCond(u.X, env)
+						return !t, ok
+					}
+					if k, ok := v.(*ssa.Const); ok && k.Value != nil && (k.Value.String() == "true" || k.Value.String() == "false") {
+						return k.Value.String() == "true", true
+					}
+					return false, false
+				}
+				setCond := func(v ssa.Value, t bool, env map[ssa.Value]bool) {
+					for {
+						u, ok := v.(*ssa.UnOp)
+						if !ok || u.Op != token.NOT {
+							break
+						}
+						v, t = u.X, !t
+					}
+					env[v] = t
+				}
+				sigOf := func(env map[ssa.Value]bool) string {
+					var parts []string
+					for v, t := range env {
+						parts = append(parts, fmt.Sprintf("%s=%v", v.Name(), t))
+					}
+					sort.Strings(parts)
+					return strings.Join(parts, ",")
+				}
+				var walk func(b, from *ssa.BasicBlock, env map[ssa.Value]bool)
+				walk = func(b, from *ssa.BasicBlock, env map[ssa.Value]bool) {
+					steps++
+					if uncovered || steps > 20000 {
+						return
+					}
+					// boolean phis take the value of the edge we came along
+					if from != nil {
+						for _, in3 := range b.Instrs {
+							phi, ok := in3.(*ssa.Phi)
+							if !ok {
+								break
+							}
+							for pi, p := range b.Preds {
+								if p == from {
+									if t, ok := evalCond(phi.Edges[pi], env); ok {
+										env[phi] = t
+									} else {
+										delete(env, phi)
+									}
+								}
+							}
+						}
+					}
+					st := state{b, sigOf(env)}
+					if seen[st] {
+						return
+					}
+					seen[st] = true
+					for _, in3 := range b.Instrs {
+						if in3 == ssa.Instruction(call) {
+							uncovered = true
+							return
+						}
+						if writes(in3) {
+							return
+						}
+					}
+					ifi, isIf := b.Instrs[len(b.Instrs)-1].(*ssa.If)
+					if !isIf {
+						for _, s2 := range b.Succs {
+							walk(s2, b, env)
+						}
+						return
+					}
+					if blockInCycle(b) {
+						if bo, ok := ifi.Cond.(*ssa.BinOp); ok && bo.Op == token.LSS {
+							if lc, ok := bo.Y.(*ssa.Call); ok {
+								if bb, ok := lc.Call.Value.(*ssa.Builtin); ok && bb.Name() == "len" && types.Identical(lc.Call.Args[0].Type(), sl.Type()) {
+									walk(b.Succs[0], b, env)
+									return
+								}
+							}
+						}
+					}
+					if t, ok := evalCond(ifi.Cond, env); ok {
+						if t {
+							walk(b.Succs[0], b, env)
+						} else {
+							walk(b.Succs[1], b, env)
+						}
+						return
+					}
+					for si, s2 := range b.Succs {
+						env2 := map[ssa.Value]bool{}
+						for k2, v2 := range env {
+							env2[k2] = v2
+						}
+						setCond(ifi.Cond, si == 0, env2)
+						walk(s2, b, env2)
+					}
+				}
+				walk(fn.Blocks[0], nil, map[ssa.Value]bool{})
+				if steps > 20000 {
+					c.S.Trivial("R-sort-keys-defined", key, c.Pos(call.Pos()), "not decided: too many paths")
+					continue
+				}
+				if uncovered {
+					c.S.Bad("R-sort-keys-defined", key, c.Pos(call.Pos()), fmt.Sprintf("%s orders its elements by the field %s, which is not written on some path to the sort (it is filled on one branch only): on that path every element compares equal and the order is whatever it was", fnName(fn), f.Name()))
+				} else {
+					c.S.OK("R-sort-keys-defined", key, c.Pos(call.Pos()), "the field is written on every path to the sort")
+				}
+			}
+		}
+	}
+	if n == 0 {
+		c.S.Trivial("R-sort-keys-defined", "none", "-", "no sort.Slice over struct elements")
+	}
+}
